@@ -84,23 +84,30 @@ def main(argv=None) -> int:
         parts, reason = core.run_sharded(prop, args.tier, args.seed, nshards, limit)
         for p in parts:
             ctx.merge_partial(p)
-    if reason is None and getattr(mod, "OPTIMIZED_PASS", True) and not os.environ.get("HV_OPT_CHILD") and not sys.flags.optimize:
-        # once more, on a slice of the workload, in an interpreter started with -O: nothing the property promises may hang on
-        # an assert statement (or on __debug__)
-        part, why = core.run_optimized_pass(prop, args.tier, args.seed, limit)
-        if part is None:
-            reason = why
-        else:
+    if reason is None and not os.environ.get("HV_OPT_CHILD") and not sys.flags.optimize:
+        # once more, on a slice of the workload, in interpreter configurations that differ from the default one in things no
+        # property may depend on (asserts stripped; warnings as errors, front-end environment variables, another cwd)
+        from concurrent.futures import ThreadPoolExecutor
+
+        skip = set(getattr(mod, "SKIP_ALT_PASSES", ()))
+        todo = [k for k in range(len(core.ALT_PASSES)) if k not in skip]
+        with ThreadPoolExecutor(max_workers=len(todo) or 1) as ex:
+            results = list(ex.map(lambda k: core.run_alt_pass(k, prop, args.tier, args.seed, limit), todo))
+        ctx.notes["alternative_interpreter_passes"] = {}
+        for label, part, why in results:
+            if part is None:
+                reason = reason or why
+                continue
             for v in part["violations"]:
-                v["what"] = v["what"] + " [in the pass under python -O]"
+                v["what"] = v["what"] + " [in the pass: %s]" % label
                 ctx.violations.append(v)
             for k, n in part["viol_counts"].items():
                 ctx.viol_counts[k] = ctx.viol_counts.get(k, 0) + n
-            ctx.notes["optimized_interpreter_pass"] = {"evaluations": part["evaluations"], "violation_keys": sorted(part["viol_counts"]),
-                                                       "monitor_evaluations": {k: v for k, v in sorted(part["counters"].items())[:40]}}
-            ctx.counters["optimized_pass.evaluations"] = part["evaluations"]
+            ctx.notes["alternative_interpreter_passes"][label] = {"evaluations": part["evaluations"], "violation_keys": sorted(part["viol_counts"]),
+                                                                  "monitor_evaluations": {k: v for k, v in sorted(part["counters"].items())[:30]}}
+            ctx.counters["alt_pass_evaluations"] = ctx.counters.get("alt_pass_evaluations", 0) + part["evaluations"]
             if part["evaluations"] == 0:
-                reason = "the pass under python -O executed no case"
+                reason = reason or "the pass '%s' executed no case" % label
     return core.finish(ctx, mod, reason)
 
 
